@@ -391,7 +391,7 @@ func c11Fallback(r *core.Report) {
 	info := p.Pkg("openapi3").TypesInfo
 	r.RunRule("C11.fallback", "what resolveComponent reads itself is the referred document: every argument of loader.readURL (or of any other reader) in Loader.resolveComponent is the location that resolveRefAndDocument returned for the reference (the named result componentPath), not the location of the document the reference is written in (the parameter path) — the two differ for every external reference, and reading the latter resolves `other.yml#/x-defs/X` with an object of the referring document", 1, func() {
 		fd := p.DeclOf("openapi3", "Loader.resolveComponent")
-		pathObj := core.ParamObj(info, fd, "path")
+		pathObj := paramAt(info, fd, 2) // (doc, ref, path, resolved): the location of the referring document
 		n := 0
 		ast.Inspect(fd.Body, func(nd ast.Node) bool {
 			c, ok := nd.(*ast.CallExpr)
